@@ -1,27 +1,27 @@
 ---------------------------- MODULE JudgeEngine ----------------------------
 (***************************************************************************)
 (* Layer-A judgement of a RECORDED run of the real engine on a program of  *)
-(* Engine.tla's fragment (acyclic, propositional): the key the engine gave *)
-(* each query must mean, in every world, the truth of the query atom in    *)
-(* the program's least model.  Used when a replayed behaviour differs from *)
+(* Engine.tla's fragment (propositional, possibly recursive): the key the  *)
+(* engine gave each query must mean, in every world, the truth of the      *)
+(* query atom in the well-founded model (an undefined atom matches no key).  Used when a replayed behaviour differs from *)
 (* the model (drift): only this judgement can say VIOLATION.               *)
 (* case: [id, prog, queries, results |-> Seq(key | -999 absent), nodes]    *)
 (***************************************************************************)
 EXTENDS AOG, Json, IOUtils
 Cases == JsonDeserialize(IOEnv.CASES_FILE)
 
-Facts(P) == { P[i].h : i \in { j \in DOMAIN P : P[j].f } }
-RECURSIVE Truth(_, _, _)
-Truth(P, asg, p) ==
-  \E i \in DOMAIN P : P[i].h = p /\
-     IF P[i].f THEN p \in asg
-     ELSE \A j \in DOMAIN P[i].b : IF P[i].b[j].s = 1 THEN Truth(P, asg, P[i].b[j].a) ELSE ~Truth(P, asg, P[i].b[j].a)
+Facts(P) == { P[i].h : i \in { j \in DOMAIN P : P[j].f /\ P[j].h # "t" } }
+RulesIn(P, asg) == { [ h |-> P[i].h, pos |-> { P[i].b[j].a : j \in { x \in DOMAIN P[i].b : P[i].b[x].s = 1 } },
+                       neg |-> { P[i].b[j].a : j \in { x \in DOMAIN P[i].b : P[i].b[x].s = 0 } } ]
+                     : i \in { j \in DOMAIN P : ~P[j].f \/ P[j].h \in asg \/ P[j].h = "t" } }
+\* three-valued truth in the well-founded model of the world asg (the program may be recursive)
+Truth3(P, asg, p) == LET wf == WFM(RulesIn(P, asg)) IN IF p \in wf[1] THEN "T" ELSE IF p \in wf[2] THEN "U" ELSE "F"
 
 \* the harness renames atom identities to the fact names (node order = order of first use)
 KeyTruth(nodes, asg, k) == IF k = -999 THEN "F" ELSE KeyValue("r", WFM(GraphRules("r", nodes, asg)), k)
 JudgeCase(C) ==
   LET bad == { <<q, asg>> \in (DOMAIN C.results) \X (SUBSET Facts(C.prog)) :
-                 KeyTruth(C.nodes, asg, C.results[q]) # (IF Truth(C.prog, asg, C.queries[q]) THEN "T" ELSE "F") }
+                 KeyTruth(C.nodes, asg, C.results[q]) # Truth3(C.prog, asg, C.queries[q]) }
   IN  IF bad = {} THEN [ id |-> C.id, ok |-> TRUE, q |-> "", world |-> << >> ]
       ELSE LET w == CHOOSE x \in bad : TRUE IN [ id |-> C.id, ok |-> FALSE, q |-> C.queries[w[1]], world |-> SetToSeq(w[2]) ]
 Results == [ c \in DOMAIN Cases |-> JudgeCase(Cases[c]) ]
